@@ -265,6 +265,126 @@ def _():
     got = st.read_result(pc1.memento(2))
     return isinstance(got, bytes) and got == b"bytes-result"
 
+@memento_function(cluster="probe", version="1")
+def mx_fn(x):
+    _MX["events"].append(("body", _MX["held"] > 0))
+    return x
+
+_MX = {"events": [], "held": 0}
+
+@probe("recheck_inside_mutex")
+def _():
+    import twosigma.memento.runner_local as rl
+    _cache_env("mx", 4)
+    class Mx:
+        def __init__(self, inner):
+            self.inner = inner
+        def __enter__(self):
+            self.inner.__enter__(); _MX["held"] += 1; return self
+        def __exit__(self, *a):
+            _MX["held"] -= 1; return self.inner.__exit__(*a)
+        def acquire(self, *a, **k):
+            r = self.inner.acquire(*a, **k)
+            if r:
+                _MX["held"] += 1
+            return r
+        def release(self):
+            _MX["held"] -= 1; self.inner.release()
+    orig = rl._mutex_for_invocation
+    from twosigma.memento.storage_base import StorageBackendBase
+    og = StorageBackendBase.get_memento
+    def gm(self, *a, **k):
+        _MX["events"].append(("get", _MX["held"] > 0)); return og(self, *a, **k)
+    rl._mutex_for_invocation = lambda *a, **k: Mx(orig(*a, **k))
+    StorageBackendBase.get_memento = gm
+    try:
+        _MX["events"].clear()
+        mx_fn(41)
+    finally:
+        rl._mutex_for_invocation = orig
+        StorageBackendBase.get_memento = og
+    ev = _MX["events"]
+    if ("body", True) not in ev and ("body", False) not in ev:
+        return None
+    if not any(k == "get" for k, _ in ev):
+        return None
+    bi = [i for i, (k, _) in enumerate(ev) if k == "body"][0]
+    return ev[bi][1] and any(k == "get" and h for k, h in ev[:bi])
+
+@probe("cache_methods_locked")
+def _():
+    import threading
+    st = _cache_env("lk", 64)
+    pc1(7)
+    mm = pc1.memento(7)
+    mc = st._memory_cache
+    state = {"depth": 0, "cur": None, "acc": [], "outer": 0}
+    inner = mc._lock
+    class Lk:
+        def __enter__(self):
+            inner.__enter__(); self._up(); return self
+        def __exit__(self, *a):
+            state["depth"] -= 1; return inner.__exit__(*a)
+        def acquire(self, *a, **k):
+            r = inner.acquire(*a, **k)
+            if r:
+                self._up()
+            return r
+        def release(self):
+            state["depth"] -= 1; inner.release()
+        def _up(self):
+            if state["depth"] == 0:
+                state["outer"] += 1
+            state["depth"] += 1
+    def note():
+        state["acc"].append((state["cur"], state["depth"] > 0))
+    class Tracked(dict):
+        def __getitem__(self, k): note(); return dict.__getitem__(self, k)
+        def __setitem__(self, k, v): note(); return dict.__setitem__(self, k, v)
+        def __delitem__(self, k): note(); return dict.__delitem__(self, k)
+        def __contains__(self, k): note(); return dict.__contains__(self, k)
+        def __iter__(self): note(); return dict.__iter__(self)
+        def get(self, *a): note(); return dict.get(self, *a)
+        def pop(self, *a): note(); return dict.pop(self, *a)
+        def keys(self): note(); return dict.keys(self)
+        def items(self): note(); return dict.items(self)
+        def values(self): note(); return dict.values(self)
+        def clear(self): note(); return dict.clear(self)
+    from collections import deque
+    class TrackedDeque(deque):
+        def append(self, x): note(); return deque.append(self, x)
+        def remove(self, x): note(); return deque.remove(self, x)
+        def popleft(self): note(); return deque.popleft(self)
+        def clear(self): note(); return deque.clear(self)
+        def __contains__(self, x): note(); return deque.__contains__(self, x)
+        def __len__(self): note(); return deque.__len__(self)
+    mc._lock = Lk()
+    mc.cache = Tracked(mc.cache)
+    if type(mc.lru_deque) is deque:
+        mc.lru_deque = TrackedDeque(mc.lru_deque)
+    fr = mm.invocation_metadata.fn_reference_with_args
+    calls = [("put", lambda: mc.put(mm, b"r" * 10, True)),
+             ("get_mementos", lambda: mc.get_mementos([fr.fn_reference_with_arg_hash()])),
+             ("read_result", lambda: mc.read_result(mm)),
+             ("is_memoized", lambda: mc.is_memoized(fr.fn_reference, fr.arg_hash)),
+             ("forget_call", lambda: mc.forget_call(fr.fn_reference_with_arg_hash())),
+             ("put", lambda: mc.put(mm, b"r" * 10, True)),
+             ("forget_function", lambda: mc.forget_function(fr.fn_reference)),
+             ("put", lambda: mc.put(mm, b"r" * 10, True)),
+             ("forget_everything", lambda: mc.forget_everything())]
+    sections = []
+    for name, c in calls:
+        state["cur"] = name
+        state["outer"] = 0
+        c()
+        sections.append(state["outer"])
+    if any(n != 1 for n in sections):       # one critical section per operation
+        return False
+    seen = {n for n, _ in state["acc"]}
+    if seen != {n for n, _ in calls}:
+        return None
+    return all(h for _, h in state["acc"])
+
 @probe("ext_allows_default_cluster")
 def _():
     from twosigma.memento.reference import FunctionReference
